@@ -17,7 +17,19 @@
                        (per-entity graphs on the registry as it is at that moment, then the four
                        project-wide graphs whose roots may create further nodes).
    Python sets are lists without duplicates; iteration order (sorted(...) in the code) only
-   decides the order of lines in the DOT source and is not modelled: results are compared as sets. *)
+   decides the order of lines in the DOT source and is not modelled: results are compared as sets.
+
+   Deliberate abstractions (each unobservable on the inputs FORD accepts):
+   * ModNode / SubmodNode do not pass [hist] down, the other constructors do; the model treats every
+     kind alike ("exists already" = in a collection or under construction).  The two differ only for a
+     cyclic USE / ancestry relation, which Project.correlate's toposort rejects before any graph is built.
+   * a bare name (unresolved callee, third-party module or type) gets a fresh node object at every
+     occurrence in the code, all equal by ident; the model keeps one node per (kind, name).  Such nodes
+     are never roots and never expanded along an inverse relation, so their split inverse sets are
+     never read.
+   * the two label dictionaries comp_types / comp_of receive the same concatenations; the model merges
+     the component names once ([merge_comps]) and stores the result on both sides.
+   * the unused counters ModNode.afferent / efferent are not modelled. *)
 From Coq Require Import NArith.
 From Ford Require Import Base.Str.
 
